@@ -7,10 +7,10 @@ Theorem step_is_transition (D R : Type) (c : config D R) i c' :
   trans_ok true (phase_of (c_pc (cl c i))) (step_tag c i) (phase_of (c_pc (cl c' i))) = true.
 Proof.
   unfold cstep, step_tag.
-  destruct (c_pc (cl c i)) as [|w f|w f|w f|w f o l|w f o|l fe res|f r|f res|f|f hh m|] eqn:E; try discriminate.
+  destruct (c_pc (cl c i)) as [|w f|w f|w f|w f o l|w f o|l fe res|f r|f res|f|r mo f hh m|r mo|] eqn:E; try discriminate.
   - destruct (c_todo (cl c i)) as [|[w|r] rest]; [discriminate| |].
     + destruct (w_store w); intros X; inversion X; subst; cbn; unfold upd_cl; rewrite Nat.eqb_refl; reflexivity.
-    + destruct (r_select r (db c)); intros X; inversion X; subst; cbn; unfold upd_cl; rewrite Nat.eqb_refl; reflexivity.
+    + unfold after_select. destruct (r_select r (db c)); intros X; inversion X; subst; cbn; unfold upd_cl; rewrite Nat.eqb_refl; reflexivity.
   - intros X; inversion X; subst; cbn; unfold upd_cl; rewrite Nat.eqb_refl; reflexivity.
   - destruct (lock c) as [[j wk]|].
     + destruct (w_retry w); intros X; inversion X; subst; cbn.
@@ -26,7 +26,9 @@ Proof.
   - intros X; inversion X; subst; cbn; unfold upd_cl; rewrite Nat.eqb_refl; reflexivity.
   - intros X; inversion X; subst; cbn; unfold upd_cl; rewrite Nat.eqb_refl; reflexivity.
   - destruct f; intros X; inversion X; subst; cbn; unfold upd_cl; rewrite Nat.eqb_refl; reflexivity.
-  - intros X; inversion X; subst; cbn; unfold upd_cl; rewrite Nat.eqb_refl; reflexivity.
+  - destruct (files c f); [destruct (r_again r && negb (same_file mo f))|destruct (r_again r && negb (same_file mo f))|];
+      intros X; inversion X; subst; cbn; unfold upd_cl; rewrite Nat.eqb_refl; reflexivity.
+  - unfold after_select. destruct (r_select r (db c)); intros X; inversion X; subst; cbn; unfold upd_cl; rewrite Nat.eqb_refl; reflexivity.
 Qed.
 
 (* the stage order the machine (and the automaton) impose: removals of replaced files only after the
@@ -41,6 +43,11 @@ Example accepted_timeout_removes_file : accepts false [TCreate; TClose; TBeginBu
 Proof. reflexivity. Qed.
 Example accepted_pop : accepts false [TBegin; TBody; TCommit; TFetchRead; TRemove] = true.
 Proof. reflexivity. Qed.
+(* a lookup whose file is gone looks the row up again; it does not open two files after one SELECT *)
+Example accepted_lookup_again :
+  accepts false [TSelect; TOpenRead; TSelect; TOpenRead] = true /\ accepts false [TSelect; TOpenRead; TSelect] = true /\
+  accepts false [TSelect; TOpenRead; TOpenRead] = false.
+Proof. repeat split; reflexivity. Qed.
 Example early_removal_only_in_blocks :
   accepts false [TBegin; TBody; TEarlyRm; TRollback] = false /\ accepts true [TBegin; TBody; TEarlyRm; TRollback] = true.
 Proof. split; reflexivity. Qed.
